@@ -6,10 +6,13 @@ import z3
 from .values import *  # noqa
 from .core import *  # noqa
 from .core import _NOCONST
-from .interp import VEmptyList, VEmptySet, TOptObj, TDictRec, Interp, SpecUndef
+from .interp import VEmptyList, VEmptySet, TOptObj, TDictRec, Interp, SpecUndef, _has_nan
 from . import frontend
 from . import dyn as D
 from .dyn import VDyn, TDyn
+from . import jsonmodel as JM
+from . import jsontree
+from .jsontree import VJDict, VJSet, VJList, VWStr
 
 
 # =============================================================== operators
@@ -80,15 +83,43 @@ def binop(I, op, a, b):
         if a.et != b.et:
             raise Unsupported("list concat of different element types")
         i = z3.Int("cc_i")
+        if getattr(I.cur_contract, "named_seqs", False) and not I.spec:
+            return named_concat(I, a, b)
         arr = z3.Lambda([i], z3.If(i < a.n, z3.Select(a.arr, i), z3.Select(b.arr, i - a.n)))
         return VSeq(arr, a.n + b.n, a.et, "list")
     if isinstance(op, ast.Mod) and isinstance(a, VStr):
         return I.ver.opaque_str("pct", VTuple([a, b]), I)
     if isinstance(op, ast.BitOr) and isinstance(a, VSet) and isinstance(b, VSet):
         raise Unsupported("set union")
+    if (isinstance(a, VJSet) and isinstance(b, (VJSet, VEmptySet))) or (isinstance(b, VJSet) and isinstance(a, VEmptySet)):
+        return jsontree.set_binop(I, op, a, b)
+    if isinstance(a, VEmptySet) and isinstance(b, VEmptySet) and isinstance(op, (ast.Sub, ast.BitAnd, ast.BitOr)):
+        return VEmptySet()
+    if isinstance(op, ast.Add) and (isinstance(a, VJList) or isinstance(b, VJList)):
+        xs, ys = jsontree.list_items_of(I, a), jsontree.list_items_of(I, b)
+        if xs is not None and ys is not None and not isinstance(a, VTuple) and not isinstance(b, VTuple):
+            return VJList(xs + ys)
     if I.spec:
         raise Unsupported("binop %s on %s,%s" % (type(op).__name__, type(a).__name__, type(b).__name__))
     I.raise_exc("TypeError", "unsupported operand types")
+
+
+def named_concat(I, a, b):
+    """contract option named_seqs: a + b as a *named* array constrained pointwise with explicit triggers (same meaning
+    as the lambda encoding, but quantifier instantiation can chain through it)"""
+    i = z3.Int("cc_i")
+    res = I.fresh_value(TList(a.et), "cat")
+    p = I.path
+    p.assume(res.n == a.n + b.n)
+    plain = lambda arr: not z3.is_quantifier(arr)
+    pa = [z3.Select(res.arr, i)] + ([z3.Select(a.arr, i)] if plain(a.arr) else [])
+    p.assume(z3.ForAll([i], z3.Implies(z3.And(0 <= i, i < a.n), z3.Select(res.arr, i) == z3.Select(a.arr, i)), patterns=pa))
+    p.assume(z3.ForAll([i], z3.Implies(z3.And(a.n <= i, i < a.n + b.n), z3.Select(res.arr, i) == z3.Select(b.arr, i - a.n)),
+                       patterns=[z3.Select(res.arr, i)]))
+    if plain(b.arr):
+        p.assume(z3.ForAll([i], z3.Implies(z3.And(0 <= i, i < b.n), z3.Select(res.arr, a.n + i) == z3.Select(b.arr, i)),
+                           patterns=[z3.Select(b.arr, i)]))
+    return res
 
 
 def seq_copy(s):
@@ -104,6 +135,17 @@ def contains(I, cont, x):
         raise Unsupported("'in' on a Dyn value in a specification (use as_dict/as_list/as_str)")
     if isinstance(cont, VEmptySet):
         return z3.BoolVal(False)
+    if isinstance(cont, VDRec):
+        c = const_of(x) if isinstance(x, VStr) else _NOCONST
+        if isinstance(c, str):
+            return cont.has(c)
+        if isinstance(x, VStr):
+            return z3.Or([z3.And(x.e == z3.StringVal(fn), cont.has(fn)) for fn in cont.t.fields] + [z3.BoolVal(False)])
+        return z3.BoolVal(False)
+    if isinstance(cont, VJDict):
+        return jsontree.contains(I, cont, x)
+    if isinstance(cont, (VJSet, VJList)):
+        return jsontree.set_contains(I, cont, x)
     if isinstance(cont, VMap) or isinstance(cont, VSet):
         if isinstance(x, VDyn):
             if cont.kt is TStr or cont.kt is D.TDKey:
@@ -124,6 +166,16 @@ def contains(I, cont, x):
         if cont.kind == "keys":
             return contains(I, cont.m, x)
         raise Unsupported("in on dict view")
+    if isinstance(cont, VLocals):
+        c = const_of(x) if isinstance(x, VStr) else _NOCONST
+        if not isinstance(c, str):
+            raise Unsupported("symbolic name looked up in locals()")
+        if cont.env.lookup(c) is not None:
+            return z3.BoolVal(True)
+        if cont.assigned_somewhere(c):
+            I.ver.note_assumption("'name' in locals() for a name first bound inside a cut loop is nondeterministic")
+            return I.path.fresh("locals_has_" + c, z3.BoolSort())
+        return z3.BoolVal(False)
     if isinstance(cont, VDictRec):
         c = const_of(x) if isinstance(x, VStr) else _NOCONST
         if isinstance(c, str):
@@ -131,6 +183,13 @@ def contains(I, cont, x):
         if isinstance(x, VStr):
             return z3.Or([x.e == z3.StringVal(k) for k in cont.fields] + [z3.BoolVal(False)])
         return z3.BoolVal(False)
+    if isinstance(cont, VRec) and getattr(cont.t, "dictshape", False):
+        c = const_of(x) if isinstance(x, VStr) else _NOCONST
+        if isinstance(c, str):
+            if c not in cont.fields:
+                return z3.BoolVal(False)
+            return z3.Not(cont.fields[c].is_none()) if c in cont.t.optkeys else z3.BoolVal(True)
+        raise Unsupported("symbolic key membership in a dict-shaped record")
     if isinstance(cont, VSeq):
         i = z3.Int(I.path.fresh_name("in_i"))
         el = cont.et.wrap(z3.Select(cont.arr, i))
@@ -145,6 +204,11 @@ def contains(I, cont, x):
         ci = I.class_of(cont)
         if ci is not None and ci.find_method("__contains__"):
             return I.truth(I.call_method_ast(cont, "__contains__", [x], {}))
+        # protocol object declared with R.objtype(...) without a class: `x in obj` goes through its function-typed
+        # field `__contains__` (contract declared with R.funtype)
+        fld = cont.fields.get("__contains__")
+        if isinstance(fld, VFunc) and not I.spec:
+            return I.truth(I.call(fld, [x], {}))
     if I.spec:
         raise Unsupported("'in' on %s" % type(cont).__name__)
     I.raise_exc("TypeError", "argument is not iterable")
@@ -190,6 +254,16 @@ def subscript(I, o, k):
             kk = unwrap(k, o.kt)
         except TypeError:
             I.raise_exc("KeyError", "key of wrong type")
+        if getattr(o, "default_e", None) is not None and not I.spec:
+            # collections.defaultdict: reading a missing key inserts the default and yields it (no KeyError)
+            present = z3.Select(o.dom, kk)
+            val = z3.If(present, z3.Select(o.val, kk), o.default_e)
+            o.val = z3.Store(o.val, kk, val)
+            o.dom = z3.Store(o.dom, kk, z3.BoolVal(True))
+            o.card = z3.simplify(o.card + z3.If(present, 0, 1))
+            I.path.assume(o.card >= 1)
+            o.writeback()
+            return o.vt.wrap(val)
         I.require_defined(z3.Select(o.dom, kk), "KeyError", "missing key")
         I.ver.on_map_read(I, o, kk)
         D.key_fact(I, o, kk)
@@ -207,13 +281,49 @@ def subscript(I, o, k):
         for j in range(len(o.items) - 2, -1, -1):
             cur = I.ite(idx == j, o.items[j], cur)
         return cur
+    if isinstance(o, VLocals):
+        c = const_of(k) if isinstance(k, VStr) else _NOCONST
+        if not isinstance(c, str):
+            raise Unsupported("symbolic name looked up in locals()")
+        v = o.env.lookup(c)
+        if v is not None:
+            return v
+        lt = I.ver.local_type(I, c)
+        if lt is None or not o.assigned_somewhere(c):
+            raise Unsupported("locals()[%r]: unbound name without a declared local type" % c)
+        return I.fresh_value(lt, "locals_" + c)
+    if isinstance(o, VDRec):
+        c = const_of(k) if isinstance(k, VStr) else _NOCONST
+        if not isinstance(c, str):
+            raise Unsupported("symbolic key into a dict-shaped record")
+        if c not in o.t.fields:
+            I.raise_exc("KeyError", c)
+        I.require_defined(o.has(c), "KeyError", c)
+        return o.field(c)
+    if isinstance(o, VJDict):
+        return jsontree.subscript(I, o, k)
+    if isinstance(o, VJList):
+        return jsontree.list_subscript(I, o, k)
     if isinstance(o, VDictRec):
         c = const_of(k) if isinstance(k, VStr) else _NOCONST
         if isinstance(c, str):
             if c in o.fields:
                 return o.fields[c]
             I.raise_exc("KeyError", c)
+        if not o.fields:
+            I.raise_exc("KeyError", "empty dict")
         raise Unsupported("symbolic key into literal dict")
+    if isinstance(o, VRec) and getattr(o.t, "dictshape", False):
+        c = const_of(k) if isinstance(k, VStr) else _NOCONST
+        if not isinstance(c, str):
+            raise Unsupported("symbolic key into a dict-shaped record")
+        if c not in o.fields:
+            I.raise_exc("KeyError", c)
+        if c in o.t.optkeys:
+            f = o.fields[c]
+            I.require_defined(z3.Not(f.is_none()), "KeyError", c)
+            return f.val()
+        return o.fields[c]
     if isinstance(o, VStr):
         if not is_num(k) or isinstance(k, VReal):
             I.raise_exc("TypeError", "string indices must be integers")
@@ -226,6 +336,11 @@ def subscript(I, o, k):
         ci = I.class_of(o)
         if ci is not None and ci.find_method("__getitem__"):
             return I.call_method_ast(o, "__getitem__", [k], {})
+    if isinstance(o, VRec) and getattr(o.t, "dictlike", False):
+        val, has = _rec_dict_key(o, k)
+        if has is not None:
+            I.require_defined(has, "KeyError", "missing key")
+        return val
     if isinstance(o, VNone):
         I.raise_exc("TypeError", "'NoneType' object is not subscriptable")
     if I.spec:
@@ -237,6 +352,8 @@ def slice_(I, o, lo, hi):
     o = I.force(o) if not I.spec else o
     if isinstance(o, VEmptyList):
         return VEmptyList()
+    if isinstance(o, VJList):
+        return jsontree.list_slice(I, o, lo, hi)
     if isinstance(o, VSeq):
         n = o.n
 
@@ -281,8 +398,19 @@ def slice_(I, o, lo, hi):
 
 # --------------------------------------------------------------- map mutation primitives
 
+def check_literal_shape(I, v, t):
+    """a dict literal stored where a dict-shaped record is expected: its key set is an obligation"""
+    if isinstance(t, TDRec) and isinstance(v, VDictRec):
+        ok = drec_shape_ok(v, t)
+        I.path.prove(z3.BoolVal(ok), "%s/dict-shape:%s" % (I.cur_obl_prefix(), t.nm), "shape",
+                     where="keys %s == documented keys of %s" % (sorted(v.fields), t.nm))
+        if not ok:
+            raise PathEnd("dict literal of the wrong shape")
+
+
 def map_store(I, m, kk, v):
     """m[kk] = v  (kk z3 key expr)"""
+    check_literal_shape(I, v, m.vt)
     was = z3.Select(m.dom, kk)
     ve = unwrap(v, m.vt)
     I.ver.on_map_store(I, m, kk, ve, was)
@@ -333,9 +461,14 @@ def set_add(I, s, kk):
 def store_subscript(I, o, k, v):
     o = I.force(o)
     k = I.force(k)
+    if isinstance(o, VRec) and getattr(o.t, "dictshape", False):
+        raise Unsupported("mutation of a dict-shaped record (%s)" % o.t.nm)
     if isinstance(o, VMap):
         kk = unwrap(k, o.kt)
         map_store(I, o, kk, v)
+        if isinstance(v, VDictRec) and isinstance(o.vt, TMutRec):
+            v.origin = (o, kk)
+            v.adopt(o.vt)
         return
     if isinstance(o, VSeq):
         idx = norm_index(I, o, k)
@@ -343,9 +476,27 @@ def store_subscript(I, o, k, v):
         o.arr = z3.Store(o.arr, idx, unwrap(v, o.et))
         o.writeback()
         return
+    if isinstance(o, VJDict):
+        jsontree.store(I, o, k, v)
+        return
     if isinstance(o, VDictRec):
         c = const_of(k) if isinstance(k, VStr) else _NOCONST
         if isinstance(c, str):
+            if o.mt is not None:
+                # by-value record: fixed keys, typed fields, mutation written back to the owning container
+                if c not in o.mt.fields:
+                    raise Unsupported("new key %r stored into a %s record" % (c, o.mt.nm))
+                ft = o.mt.fields[c]
+                if isinstance(v, VDictRec) and isinstance(ft, TMutRec):
+                    v.origin = (o, c)
+                    v.adopt(ft)
+                elif isinstance(v, (VSeq, VMap, VSet)):
+                    v.origin = (o, c)
+                elif not isinstance(v, VDictRec):
+                    v = ft.wrap(unwrap(v, ft))
+                o.fields[c] = v
+                o.writeback()
+                return
             o.fields[c] = v
             return
         raise Unsupported("symbolic key store into literal dict")
@@ -363,6 +514,9 @@ def del_subscript(I, o, k):
         kk = unwrap(k, o.kt)
         I.require_defined(z3.Select(o.dom, kk), "KeyError", "del missing key")
         map_remove(I, o, kk)
+        return
+    if isinstance(o, VJDict):
+        jsontree.delete(I, o, k)
         return
     if isinstance(o, VDictRec):
         c = const_of(k)
@@ -382,6 +536,27 @@ class VMapView(V):
         self.kind = kind
 
 
+class VLocals(V):
+    """the result of locals() used as a read-only mapping: `'x' in locals()` / `locals()['x']`.  A name bound in the
+    current activation is present with its value.  A name that is unbound *in the engine's environment* but assigned
+    somewhere in the function (e.g. first bound inside a loop that was cut by an invariant) may or may not be bound
+    in a real execution: membership is then a nondeterministic boolean and its value an arbitrary value of the
+    declared local type.  Any other name is absent."""
+    t = None
+
+    def __init__(self, env, fnode):
+        self.env = env
+        self.fnode = fnode
+
+    def assigned_somewhere(self, name):
+        if self.fnode is None:
+            return True
+        for n in ast.walk(self.fnode):
+            if isinstance(n, ast.Name) and n.id == name and isinstance(n.ctx, ast.Store):
+                return True
+        return False
+
+
 class VRange(V):
     t = None
 
@@ -395,6 +570,48 @@ class VEnum(V):
     def __init__(self, inner, start=0):
         self.inner = inner
         self.start = start
+
+
+class VExt(V):
+    """an object of an external (stdlib) class modelled by a table of builtin methods"""
+    t = None
+
+    def __init__(self, tag, attrs=None):
+        self.tag = tag
+        self.attrs = dict(attrs or {})
+
+
+REC_METHODS = {}   # (record-name prefix, method name) -> impl(I, rec, args, kw)
+
+
+def _rec_dict_key(o, k):
+    """dict-like record (R.record(..., dictlike=True)): an immutable dict *value* with a fixed universe of string
+    keys; field `k` holds the value of key k, the optional bool field `has_k` its presence (absent = always present).
+    Reading a key outside the declared universe is not modelled (Unsupported), so nothing is assumed about it."""
+    c = const_of(k) if isinstance(k, VStr) else _NOCONST
+    if not isinstance(c, str) or c not in o.fields or c.startswith("has_"):
+        raise Unsupported("key %r outside the declared universe of dict-like record %s" % (c, o.t.nm))
+    has = o.fields.get("has_" + c)
+    return o.fields[c], (None if has is None else z3.simplify(has.e))
+
+
+def rec_dict_get(I, o, args, kw):
+    val, has = _rec_dict_key(o, args[0])
+    default = args[1] if len(args) > 1 else VNone()
+    if has is None or z3.is_true(has):
+        return val
+    if z3.is_false(has):
+        return default
+    try:
+        if isinstance(default, VNone):
+            t = typeof(val)
+            t = t if isinstance(t, TOpt) else TOpt(t)
+            return t.wrap(z3.If(has, unwrap(val, t), t.none()))
+        return I.ite(has, val, default)
+    except (Unsupported, TypeError):
+        if I.spec:
+            raise Unsupported("dict-like record .get with a default of another type in a specification")
+    return val if I.path.branch(has) else default
 
 
 class VFile(V):
@@ -411,9 +628,9 @@ SEQ_METHODS = {"append", "appendleft", "pop", "popleft", "remove", "clear", "ext
                "copy", "sort", "count", "reverse"}
 MAP_METHODS = {"get", "pop", "setdefault", "keys", "values", "items", "update", "clear", "copy",
                "move_to_end", "popitem"}
-SET_METHODS = {"add", "discard", "remove", "clear", "copy", "update"}
+SET_METHODS = {"add", "discard", "remove", "clear", "copy", "update", "isdisjoint"}
 STR_METHODS = {"lower", "upper", "strip", "split", "join", "startswith", "endswith", "format", "replace",
-               "encode", "lstrip", "rstrip", "isdigit", "splitlines", "find", "count"}
+               "encode", "lstrip", "rstrip", "isdigit", "isascii", "splitlines", "find", "count"}
 
 
 def get_attribute(I, o, name, default=_NOCONST):
@@ -454,6 +671,11 @@ def get_attribute(I, o, name, default=_NOCONST):
                 return I.ev(ci.attrs[name], Env(None, ci.module))
         if name == "__dict__":
             return VDictRec(o.fields)
+    elif isinstance(o, VRec) and getattr(o.t, "dictshape", False):
+        if name == "get":
+            return VFunc("bmethod", name, selfv=o)
+        if name in MAP_METHODS:
+            raise Unsupported("dict method %s on a dict-shaped record" % name)
     elif isinstance(o, VRec):
         vs = getattr(o.t, "variants", None)
         if vs is not None and name in o.fields:
@@ -469,14 +691,28 @@ def get_attribute(I, o, name, default=_NOCONST):
                     return o.fields[name]
         elif name in o.fields:
             return o.fields[name]
+        for (prefix, mname), impl in REC_METHODS.items():
+            if mname == name and o.t.nm.startswith(prefix):
+                return VFunc("builtin", name, impl=lambda I2, a, k, impl=impl, o=o: impl(I2, o, a, k))
+        if getattr(o.t, "dictlike", False) and name == "get":
+            return VFunc("builtin", "get", impl=lambda I2, a, k, o=o: rec_dict_get(I2, o, a, k))
+    elif isinstance(o, VExt):
+        if name in o.attrs:
+            return o.attrs[name]
     elif isinstance(o, (VSeq, VEmptyList)):
         if name in SEQ_METHODS:
             return VFunc("bmethod", name, selfv=o)
     elif isinstance(o, VMap):
         if name in MAP_METHODS:
             return VFunc("bmethod", name, selfv=o)
-    elif isinstance(o, VDictRec):
+    elif isinstance(o, (VDictRec, VJDict, VDRec)):
         if name in MAP_METHODS:
+            return VFunc("bmethod", name, selfv=o)
+    elif isinstance(o, VJList):
+        if name in SEQ_METHODS:
+            return VFunc("bmethod", name, selfv=o)
+    elif isinstance(o, VWStr):
+        if name in STR_METHODS:
             return VFunc("bmethod", name, selfv=o)
     elif isinstance(o, (VSet, VEmptySet)):
         if name in SET_METHODS:
@@ -489,6 +725,9 @@ def get_attribute(I, o, name, default=_NOCONST):
         if v is not None:
             return v
     elif isinstance(o, VClass):
+        if name == "__name__":
+            dn = getattr(o, "dyn_name", None)
+            return dn if dn is not None else VStr(o.name)
         if o.node is not None:
             ci = o.module.classes.get(o.name)
             r = ci.find_method(name) if ci else None
@@ -501,13 +740,41 @@ def get_attribute(I, o, name, default=_NOCONST):
     elif isinstance(o, VExc):
         if name == "args":
             return VTuple(o.args)
+        if name in getattr(o, "attrs", {}):
+            return o.attrs[name]
+        if name == "errno" and exc_is_sub(o.cls, "OSError") and not (o.args and isinstance(o.args[0], VObj)):
+            # OSError.errno of an exception raised by a trusted I/O model / a callee contract: an arbitrary int
+            # (errno None behaves like an int outside every errno set for the membership tests it is used in)
+            if not hasattr(o, "attrs"):
+                o.attrs = {}
+            o.attrs["errno"] = VInt(I.path.fresh("errno", z3.IntSort()))
+            return o.attrs["errno"]
         if o.args and isinstance(o.args[0], VObj):
             return get_attribute(I, o.args[0], name, default)
     elif isinstance(o, VFile):
+        if name in getattr(o, "attrs", {}):
+            return o.attrs[name]
         return VFunc("bmethod", name, selfv=o)
+    elif isinstance(o, VPath):
+        from . import fsmodel
+        r = fsmodel.path_attr(I, o, name)
+        if r is not None:
+            return r
+    elif isinstance(o, JM.VJson):
+        if name in MAP_METHODS:
+            # dict methods on a dynamically typed value: its dict content (the caller has checked isinstance(v, dict))
+            return VFunc("bmethod", name, selfv=o.as_map(I))
+    elif hasattr(o, "get_attr"):
+        r = o.get_attr(I, name)
+        if r is not None:
+            return r
     elif isinstance(o, VFunc):
         if name == "__name__":
             return VStr(o.name)
+    if isinstance(o, VTuple) and getattr(o, "pylist", False):
+        raise Unsupported("method/attribute %s of a concrete python list of unencodable values" % name)
+    if isinstance(o, VClass) and name == "__name__":
+        return getattr(o, "unknown_name", None) or VStr(o.name)
     if default is not _NOCONST:
         return default
     if I.spec:
@@ -520,16 +787,41 @@ def get_attribute(I, o, name, default=_NOCONST):
 
 # =============================================================== calls
 
+def callable_un_func(I, f):
+    """values of an uninterpreted sort declared `callable=<funtype>`: a VFunc obeying that contract"""
+    if isinstance(f, VUn) and f.t.nm in I.ver.reg.callable_uns:
+        g = VFunc("param", f.t.nm, contract=I.ver.fun_contract(I.ver.reg.callable_uns[f.t.nm]))
+        g.selfv = f
+        return g
+    return None
+
+
 def call(I, f, args, kwargs, node=None):
     if not I.spec:
         f = I.force(f)
     elif isinstance(f, VUndef):
         return VUndef()
+    elif isinstance(f, VOptObj):
+        # a possibly-absent callable used inside a specification / sort key: only when it is known to be present
+        if not I.path.known(f.present):
+            raise Unsupported("call of an optional callable not known to be present, in a specification")
+        f = f.obj
+    if isinstance(f, VUn):
+        g = callable_un_func(I, f)
+        if g is not None:
+            f = g
     if isinstance(f, VFunc):
         if f.kind == "ast" and getattr(f, "qual", None) in I.ver.reg.opaques and \
                 not (I.ver.cur is not None and I.ver.cur.key == f.qual and not I.fn_stack[1:]):
             uf = I.ver.spec_name(I.ver.reg.opaques[f.qual])
             a = ([f.selfv] if f.selfv is not None else []) + list(args)
+            if kwargs or len(a) < len(f.node.args.posonlyargs + f.node.args.args + f.node.args.kwonlyargs):
+                # keyword / defaulted arguments: bind by the real signature so that the uninterpreted function always
+                # receives one value per declared parameter, in declaration order (positional, then keyword-only)
+                e0 = Env(None, f.module)
+                I.bind_params(f.node, a, dict(kwargs), e0, Env(None, f.module))
+                a = [e0.vars[p.arg] for p in f.node.args.posonlyargs + f.node.args.args + f.node.args.kwonlyargs]
+                kwargs = {}
             if uf.kind == "builtin":
                 return uf.impl(I, a, kwargs)
             saved = I.spec
@@ -540,6 +832,8 @@ def call(I, f, args, kwargs, node=None):
                 I.spec = saved
         if f.kind in ("ast", "lambda"):
             c = I.ver.contract_for_call(f, I)
+            if c is not None and any(_has_nan(a) for a in list(args) + list(kwargs.values())):
+                c = None      # contracts are stated over real-valued floats: a nan argument is outside their types -> inline
             if c is not None:
                 return call_contract(I, c, f, args, kwargs)
             if I.spec and f.kind == "ast":
@@ -601,26 +895,44 @@ def call_contract(I, c, f, args, kwargs):
     for pn, ts in c.types.items():
         if pn in env.vars and isinstance(ts, str) and not ts.startswith("="):
             try:
-                env.vars[pn] = I.coerce_value(env.vars[pn], I.ver.types.parse(ts))
+                pt = I.ver.types.parse(ts)
+                if isinstance(env.vars[pn], VOpt) and not isinstance(pt, TOpt) and not I.spec:
+                    # an Optional actual for a non-Optional formal: resolve None-ness here (fork / path condition)
+                    env.vars[pn] = I.force(env.vars[pn])
+                env.vars[pn] = I.coerce_value(env.vars[pn], pt)
             except KeyError:
                 pass
     if I.spec:
         # a pure callee used inside a specification / comprehension: its result expression
         return I.eval_spec_value(c.pure_result, env)
     I.ver.apply_param_types(I, c, env)
+    if not getattr(c, "modifies_declared", True):
+        I.ver.note_assumption("modular call of %s whose contract declares no `modifies`: assumed to change nothing "
+                              "(declare modifies=[...] to have the frame verified)" % c.short)
     caller = I.cur_obl_prefix()
     for nm, src in c.requires:
         I.path.prove(I.eval_spec(src, env), "%s/call:%s/pre:%s" % (caller, c.short, nm), "call-pre", where=src)
+    cur = I.cur_contract
+    if cur is not None and getattr(cur, "call_pre", None) and c.key in cur.call_pre and len(I.fn_stack) == 1:
+        # caller-side cut point: clauses over the calling function's own locals / ghost state, proved before the call
+        for nm, src in cur.call_pre[c.key]:
+            I.path.prove(I.eval_spec(src, I.top_env), "%s/before-call:%s/%s" % (caller, c.short, nm), "assert", where=src)
     snap = I.snapshot_env(env)
     saved_old = I.old_env
     try:
         for p in c.modifies:
             _havoc_path(I, p, env)
         I.old_env = snap
+        if "fs" in c.modifies:
+            # the havoc'd ghost file system stands for *every* intermediate (crash) state of the callee: it is only
+            # known to satisfy the callee's crash invariant, from which the caller's must follow
+            from . import fsmodel
+            fsmodel.at_modular_call(I, c, env, snap, saved_old)
         for cls, cond in c.raises_list():
             b = I.path.fresh("raised_%s_%s" % (c.short.replace(".", "_"), cls), z3.BoolSort())
             if cond is not None:
-                I.path.assume(z3.Implies(b, I.eval_spec(cond, env)))
+                # the raise condition speaks about the state at the call (before `modifies` was havoc'd)
+                I.path.assume(z3.Implies(b, I.eval_spec(cond, snap)))
             if I.path.branch(b):
                 for nm, src in c.ensures_exc:
                     I.path.assume(I.eval_spec(src, env))
@@ -647,12 +959,18 @@ def call_param(I, f, args, kwargs):
     c = f.contract
     if c is None:
         raise Unsupported("call of function parameter %s without contract" % f.name)
-    env = Env(I.ghost_env, None)
+    env = Env(getattr(I, "ghost_env", None), None)
     for i, pn in enumerate(c.params):
         if i < len(args):
             env.set(pn, args[i])
         elif pn in kwargs:
             env.set(pn, kwargs[pn])
+    if f.selfv is not None:
+        env.set("self_fn", f.selfv)
+    if I.spec:
+        if c.pure_result is None:
+            raise Unsupported("call of function parameter %s in a specification (no pure_result declared)" % f.name)
+        return I.eval_spec_value(c.pure_result, env)
     caller = I.cur_obl_prefix()
     for nm, src in c.requires:
         I.path.prove(I.eval_spec(src, env), "%s/call:%s/pre:%s" % (caller, c.short, nm), "call-pre", where=src)
@@ -665,7 +983,11 @@ def call_param(I, f, args, kwargs):
         if I.path.branch(b):
             for st in c.effects_exc:
                 I.exec_ghost(st, env)
-            raise PyRaise(VExc(cls, [], any_subclass=True))
+            ex = VExc(cls, [], any_subclass=True)
+            if c.exc_info is not None:
+                ex.tname = I.eval_spec_value(c.exc_info[0], env)
+                ex.msg = I.eval_spec_value(c.exc_info[1], env)
+            raise PyRaise(ex)
     res = VNone()
     if c.returns is not None:
         res = I.fresh_value(I.ver.types.parse(c.returns), "ret_" + c.short)
@@ -789,9 +1111,19 @@ def bi_len(I, args, kw):
         return VInt(len(v.items))
     if isinstance(v, VDictRec):
         return VInt(len(v.fields))
+    if isinstance(v, VDRec):
+        return VInt(z3.Sum([z3.If(v.has(fn), 1, 0) for fn in v.t.fields] + [z3.IntVal(0)]))
+    if isinstance(v, VJDict):
+        return VInt(len(v.slots))
+    if isinstance(v, (VJSet, VJList)):
+        return VInt(len(v.items))
     if isinstance(v, VStr):
         return VInt(z3.Length(v.e))
     if isinstance(v, VMapView):
+        if isinstance(v.m, VJDict):
+            return VInt(len(v.m.slots))
+        if isinstance(v.m, VDictRec):
+            return VInt(len(v.m.fields))
         return VInt(v.m.card)
     if isinstance(v, VObj):
         ci = I.class_of(v)
@@ -815,10 +1147,18 @@ def bi_int(I, args, kw):
     v = I.force(args[0]) if not I.spec else args[0]
     if isinstance(v, VInt):
         return v
+    if isinstance(v, JM.VJson):
+        return JM.json_int(I, v)
     if isinstance(v, VBool):
         return VInt(to_int(v))
     if isinstance(v, VReal):
         return VInt(real_to_int_trunc(v.e))
+    if isinstance(v, VStr) and isinstance(const_of(v), str) and not I.spec:
+        # a concrete string: decided by the host python (same CPython int() semantics), no solver involved
+        try:
+            return VInt(int(const_of(v)))
+        except ValueError:
+            I.raise_exc("ValueError", "invalid literal for int()")
     if isinstance(v, VStr):
         # int(str): uninterpreted predicate/function pair (int_parses, int_value) that agrees with the decimal
         # reading on plain digit strings; other accepted spellings (sign, blanks, underscores) stay abstract
@@ -849,6 +1189,34 @@ def int_parse_terms(I, e):
     return ip(e), iv(e)
 
 
+def isdigit_term(I, e):
+    """str.isdigit(): uninterpreted predicate with the trusted facts
+         isdigit(s) => s != ""                                    (python: empty string is not a digit string)
+         s in [0-9]+ => isdigit(s)                                (and int(s) parses: int_parse_terms)
+         isdigit((U+00B2))  and  not int_parses((U+00B2))          (SUPERSCRIPT TWO is a digit but not a decimal:
+                                                                   isdigit does NOT imply that int() accepts s)"""
+    f = z3.Function("str_isdigit", z3.StringSort(), z3.BoolSort())
+    if not getattr(I.path, "_isdigit_axiom", False):
+        I.path._isdigit_axiom = True
+        x = z3.String("idg_x")
+        ip, _ = int_parse_terms(I, z3.StringVal("0"))
+        ipf = ip.decl()
+        I.path.assume(z3.ForAll([x], z3.Implies(f(x), z3.Length(x) > 0), patterns=[f(x)]))
+        I.path.assume(z3.ForAll([x], z3.Implies(z3.InRe(x, z3.Plus(z3.Range("0", "9"))), f(x)), patterns=[f(x)]))
+        sup2 = z3.StringVal(chr(0xb2))
+        I.path.assume(z3.And(f(sup2), z3.Not(ipf(sup2))))
+        I.ver.note_assumption("str.isdigit(): uninterpreted except: false on '', true on [0-9]+, true on U+00B2 which int() rejects")
+    return f(e)
+
+
+def sp_nan(I, args, kw):
+    return VNaN()
+
+
+def sp_is_nan(I, args, kw):
+    return VBool(isinstance(args[0], VNaN))
+
+
 def sp_int_parses(I, args, kw):
     return VBool(int_parse_terms(I, args[0].e)[0])
 
@@ -865,6 +1233,8 @@ def bi_float(I, args, kw):
     v = I.force(args[0]) if not I.spec else args[0]
     if is_num(v):
         return VReal(to_real(v))
+    if isinstance(v, VNaN):
+        return v
     if isinstance(v, VStr):
         if I.spec:
             raise Unsupported("float(str) in spec")
@@ -898,11 +1268,39 @@ def bi_str(I, args, kw):
         return VStr("None")
     if isinstance(v, VBool):
         return VStr(z3.If(v.e, z3.StringVal("True"), z3.StringVal("False")))
+    if isinstance(v, VUn) and v.t.nm in STRLIKE:
+        return v
+    if isinstance(v, VPath):
+        from . import fsmodel
+        return fsmodel.path_str(I, v)
+    if isinstance(v, VOpt) and I.spec:
+        inner = bi_str(I, [v.val()], {})
+        return VStr(z3.If(v.is_none(), z3.StringVal("None"), inner.e))
+    if isinstance(v, VExc):
+        m = getattr(v, "msg", None)
+        if m is None:
+            # str(exc) of an exception we know nothing about: an arbitrary string, fixed per exception object
+            m = v.msg = VStr(I.path.fresh("exc_str", z3.StringSort()))
+        return m
     return I.ver.opaque_str("str", v, I)
+
+
+def bi_open(I, args, kw):
+    """builtin open(): trusted contract in pyvc/fsmodel.py (abstract file system)"""
+    from . import fsmodel
+    return fsmodel.fs_open(I, args, kw)
+
+
+def sp_fs_key(I, args, kw):
+    """spec function fs_key(p): key of a Path / str in the ghost file system (pyvc/fsmodel.py)"""
+    from . import fsmodel
+    return fsmodel.sp_fs_key(I, args, kw)
 
 
 def bi_abs(I, args, kw):
     v = I.force(args[0]) if not I.spec else args[0]
+    if isinstance(v, VNaN):
+        return v
     if isinstance(v, VReal):
         return VReal(z3.If(v.e >= 0, v.e, -v.e))
     if isinstance(v, (VInt, VBool)):
@@ -974,6 +1372,8 @@ def bi_isinstance(I, args, kw):
         if "object" in names or v.t.nm in names:
             return VBool(True)
         return VBool(z3.Or([v.fields["_cls"].e == z3.StringVal(nm) for nm in names if nm in v.t.variants] + [z3.BoolVal(False)]))
+    if isinstance(v, JM.VJson):
+        return VBool(JM.json_isinstance(I, v, names))
     return VBool(any(_isinst(I, v, nm) for nm in names))
 
 
@@ -984,12 +1384,22 @@ def _isinst(I, v, nm):
         return nm in ("bool", "int")
     if isinstance(v, VInt):
         return nm == "int"
-    if isinstance(v, VReal):
+    if isinstance(v, (VReal, VNaN)):
         return nm == "float"
     if isinstance(v, VStr):
         return nm in ("str",)
     if isinstance(v, VNone):
         return nm == "NoneType"
+    if isinstance(v, VUn) and v.t.nm in STRLIKE:
+        return nm == "str"
+    if isinstance(v, (VJDict, VDRec)):
+        return nm in ("dict", "Mapping", "MutableMapping")
+    if isinstance(v, VJSet):
+        return nm == "set"
+    if isinstance(v, VJList):
+        return nm in ("list", "Sequence")
+    if isinstance(v, VWStr):
+        return nm == "str"
     if isinstance(v, (VMap, VDictRec)):
         return nm in ("dict", "Mapping", "MutableMapping", "OrderedDict") if not (nm == "OrderedDict" and getattr(v, "order", None) is None) else False
     if isinstance(v, (VSeq, VEmptyList)):
@@ -997,10 +1407,14 @@ def _isinst(I, v, nm):
             return nm == "deque"
         return nm in ("list", "Sequence")
     if isinstance(v, VTuple):
+        if getattr(v, "pylist", False):
+            return nm in ("list", "Sequence")
         return nm in ("tuple", "Sequence")
     if isinstance(v, (VSet, VEmptySet)):
         return nm in ("set",)
     if isinstance(v, VRec):
+        if getattr(v.t, "dictlike", False) or getattr(v.t, "dictshape", False):
+            return nm in ("dict", "Mapping", "MutableMapping")
         return nm == v.t.nm
     if isinstance(v, VObj):
         ci = I.class_of(v)
@@ -1054,6 +1468,8 @@ def bi_callable(I, args, kw):
     if isinstance(v, VObj):
         ci = I.class_of(v)
         return VBool(bool(ci and ci.find_method("__call__")))
+    if callable_un_func(I, v) is not None:
+        return VBool(True)
     return VBool(False)
 
 
@@ -1065,6 +1481,12 @@ def bi_list(I, args, kw):
 
 
 def to_seq(I, v):
+    if isinstance(v, VJList):
+        return VJList(v.items)
+    if isinstance(v, VMapView) and isinstance(v.m, VJDict):
+        return VJList(jsontree.view_items(I, v))
+    if isinstance(v, VJDict):
+        return VJList([k for k, _ in v.slots])
     if isinstance(v, VSeq):
         return VSeq(v.arr, v.n, v.et, "list")
     if isinstance(v, VEmptyList):
@@ -1080,7 +1502,11 @@ def to_seq(I, v):
     if isinstance(v, VStr):
         i = z3.Int("ch_i")
         return VSeq(z3.Lambda([i], z3.SubString(v.e, i, 1)), z3.Length(v.e), TStr, "list")
-    if isinstance(v, (VInt, VReal, VBool, VNone)) and not I.spec:
+    if isinstance(v, VRange) and v.step == 1:
+        lo, hi = to_int(v.lo), to_int(v.hi)
+        i = z3.Int("rg_i")
+        return VSeq(z3.Lambda([i], lo + i), z3.simplify(z3.If(hi > lo, hi - lo, 0)), TInt, "list")
+    if isinstance(v, (VNone, VInt, VReal, VBool)):
         I.raise_exc("TypeError", "object is not iterable")
     raise Unsupported("list() of %s" % type(v).__name__)
 
@@ -1144,6 +1570,10 @@ def bi_dict(I, args, kw):
     if not args:
         return VDictRec(dict(kw))
     v = I.force(args[0])
+    if isinstance(v, VDRec):
+        return VDRec(v.e, v.t)      # a copy (ex_Assign makes the target local its owner)
+    if isinstance(v, VJDict):
+        return VJDict(v.slots)
     if isinstance(v, VDictRec):
         d = VDictRec(dict(v.fields))
         d.fields.update(kw)
@@ -1167,6 +1597,9 @@ def bi_set(I, args, kw):
     v = I.force(args[0])
     if isinstance(v, VSet):
         return VSet(v.dom, v.card, v.kt)
+    js = jsontree.to_set(I, v)
+    if js is not None:
+        return js
     if isinstance(v, VSeq):
         p = I.path
         s = I.fresh_value(TSet(v.et), "setof")
@@ -1190,12 +1623,25 @@ def bi_deque(I, args, kw):
     return v
 
 
+def bi_ordereddict(I, args, kw):
+    """collections.OrderedDict() without arguments: an empty dict literal; it takes its typed insertion-ordered
+    shape (empty_map of `OrderedDict[K, V]`) when stored into a field / local declared with that type.  An
+    order-dependent method on a value that was never given such a type stays `unsupported` (dictrec_method)."""
+    if args or kw:
+        raise Unsupported("OrderedDict(<initial content>)")
+    return VDictRec({})
+
+
 def bi_sorted(I, args, kw):
     v = I.force(args[0])
     key = kw.get("key")
     rev = kw.get("reverse")
     if rev is not None and const_of(rev) is not False:
         raise Unsupported("sorted(reverse=...)")
+    if key is None and not I.spec:
+        r = jsontree.sorted_of(I, v)       # python-side JSON model: exact sort by forking on comparisons
+        if r is not None:
+            return r
     if isinstance(v, (VMapView, VMap)) and key is None:
         view = v if isinstance(v, VMapView) else VMapView(v, "keys")
         if view.kind == "keys" and isinstance(view.m, VMap):
@@ -1209,8 +1655,9 @@ def bi_sorted(I, args, kw):
     return sort_seq(I, v, key)
 
 
-def sort_seq(I, v, key):
-    """trusted contract of sorted()/list.sort(): a stable permutation ordered by key"""
+def sort_seq(I, v, key, reverse=False):
+    """trusted contract of sorted()/list.sort(): a stable permutation ordered by key (reverse=True: descending
+    keys, elements with equal keys keep their original relative order)"""
     p = I.path
     if isinstance(v, VEmptyList):
         return v
@@ -1226,6 +1673,11 @@ def sort_seq(I, v, key):
     p.assume(z3.ForAll([j], z3.Implies(z3.And(0 <= j, j < n),
                                       z3.And(0 <= sgi(j), sgi(j) < n, sg(sgi(j)) == j,
                                              z3.Select(res.arr, sgi(j)) == z3.Select(v.arr, j)))))
+    # the same fact again, instantiable at a trig()-marked index (see Interp.spec_trig)
+    mk = z3.Function("trig_mark", z3.IntSort(), z3.BoolSort())
+    p.assume(z3.ForAll([j], z3.Implies(z3.And(mk(j), 0 <= j, j < n),
+                                      z3.And(0 <= sgi(j), sgi(j) < n, sg(sgi(j)) == j,
+                                             z3.Select(res.arr, sgi(j)) == z3.Select(v.arr, j))), patterns=[mk(j)]))
 
     def keyof(e):
         x = v.et.wrap(e)
@@ -1237,6 +1689,26 @@ def sort_seq(I, v, key):
             return I.call(key, [x], {})
         finally:
             I.spec = saved
+    if (key is None or isinstance(key, VNone)) and isinstance(v.et, TTuple):
+        # tuples whose trailing components have no ordering (dicts, records): python compares them only when all
+        # earlier components are equal, and raises TypeError then (unless the rest is equal too).  Definedness
+        # obligation: no two elements agree on the orderable prefix without being equal; the order is the prefix's.
+        def _orderable(t):
+            return (isinstance(t, (type(TInt), type(TStr), type(TBool), type(TReal), TUn)) or
+                    (isinstance(t, TTuple) and all(_orderable(x) for x in t.elems)))
+        nord = 0
+        while nord < len(v.et.elems) and _orderable(v.et.elems[nord]):
+            nord += 1
+        if nord < len(v.et.elems):
+            if nord == 0:
+                I.raise_exc("TypeError", "'<' not supported between unorderable values")
+            ta, tb = v.et.wrap(z3.Select(v.arr, i)), v.et.wrap(z3.Select(v.arr, j))
+            pre_eq = z3.And(*[I.eq(x, y) for x, y in zip(ta.items[:nord], tb.items[:nord])])
+            all_eq = I.eq(ta, tb)
+            I.require_defined(z3.ForAll([i, j], z3.Implies(z3.And(0 <= i, i < j, j < n), z3.Or(z3.Not(pre_eq), all_eq))),
+                              "TypeError", "'<' not supported between the unorderable tails of tuples with equal heads")
+            _k0 = keyof
+            keyof = lambda e: VTuple(_k0(e).items[:nord])
     ki, kj = keyof(z3.Select(res.arr, i)), keyof(z3.Select(res.arr, j))
     if isinstance(ki, VDyn) and not I.spec:
         # python orders JSON-like values only number/number and string/string: anything else is a TypeError
@@ -1247,13 +1719,19 @@ def sort_seq(I, v, key):
     saved_spec = I.spec
     I.spec = True      # the keys mention the bound indices i, j: compare them as total terms, never fork
     try:
-        le = I.lt(ki, kj, False)
+        le = I.lt(kj, ki, False) if reverse else I.lt(ki, kj, False)
         keq = I.eq(ki, kj)
     finally:
         I.spec = saved_spec
-    p.assume(z3.ForAll([i, j], z3.Implies(z3.And(0 <= i, i < j, j < n), le)))
-    p.assume(z3.ForAll([i, j], z3.Implies(z3.And(0 <= i, i < j, j < n, keq), sg(i) < sg(j))))
+    # `sort_facts=False` on a contract: the order produced by sorted()/sort() is irrelevant to its clauses, only the
+    # permutation facts are assumed (fewer assumptions: sound; keeps string-ordering atoms out of the goals)
+    if getattr(I.cur_contract, "sort_facts", True):
+        p.assume(z3.ForAll([i, j], z3.Implies(z3.And(0 <= i, i < j, j < n), le)))
+        p.assume(z3.ForAll([i, j], z3.Implies(z3.And(0 <= i, i < j, j < n, keq), sg(i) < sg(j))))
     res.perm = (sg, sgi, v)
+    if not hasattr(p, "fn_witnesses"):
+        p.fn_witnesses = []
+    p.fn_witnesses.append(sg)
     return res
 
 
@@ -1268,8 +1746,15 @@ def bi_range(I, args, kw):
     if len(args) == 2:
         return VRange(args[0], args[1], 1)
     st = const_of(args[2])
-    if not isinstance(st, int) or st == 0:
-        raise Unsupported("range with symbolic step")
+    if isinstance(st, bool) or st == 0:
+        raise Unsupported("range step")
+    if not isinstance(st, int):
+        if not isinstance(args[2], VInt):
+            raise Unsupported("range with a non-int step")
+        I.require_defined(args[2].e != 0, "ValueError", "range() arg 3 must not be zero")
+        if not I.path.known(args[2].e > 0):
+            raise Unsupported("range with a symbolic step not known to be positive")
+        return VRange(args[0], args[1], args[2])      # symbolic positive step (see _iter_protocol)
     return VRange(args[0], args[1], st)
 
 
@@ -1284,7 +1769,34 @@ def bi_round(I, args, kw):
 
 
 def bi_sum(I, args, kw):
-    raise Unsupported("sum()")
+    """sum(xs) over a list of ints/floats: an uninterpreted deterministic function of the list; the only facts
+    assumed are sum([]) == 0 and non-negative summands => non-negative sum"""
+    v = args[0]
+    if len(args) > 1 or kw:
+        raise Unsupported("sum(xs, start)")
+    if isinstance(v, VEmptyList):
+        return VInt(0)
+    if isinstance(v, VTuple):
+        cur = VInt(0)
+        for x in v.items:
+            cur = binop(I, ast.Add(), cur, x)
+        return cur
+    if isinstance(v, VSeq) and isinstance(const_of(VInt(v.n)), int) and const_of(VInt(v.n)) <= 64:
+        acc = VInt(0)
+        for j in range(const_of(VInt(v.n))):
+            acc = binop(I, ast.Add(), acc, v.get(z3.IntVal(j)))
+        return acc
+    if isinstance(v, VSeq) and (v.et is TInt or v.et is TReal):
+        t = TList(v.et)
+        f = z3.Function("seq_sum_" + v.et.name, t.sort(), v.et.sort())
+        r = f(unwrap(VSeq(v.arr, v.n, v.et, "list"), t))
+        i = z3.Int(I.path.fresh_name("sm_i"))
+        I.path.assume(z3.Implies(v.n == 0, r == 0))
+        I.path.assume(z3.Implies(z3.ForAll([i], z3.Implies(z3.And(0 <= i, i < v.n), z3.Select(v.arr, i) >= 0)), r >= 0))
+        I.ver.note_assumption("sum(list) is an uninterpreted function of the list with sum([])==0 and "
+                              "non-negative summands => non-negative sum")
+        return v.et.wrap(r)
+    raise Unsupported("sum() of %s" % type(v).__name__)
 
 
 def bi_any_all(is_any):
@@ -1322,6 +1834,13 @@ def bi_object(I, args, kw):
 
 def bi_type(I, args, kw):
     v = I.force(args[0])
+    if isinstance(v, VExc):
+        c = VClass(v.cls, exc_base=EXC_PARENT.get(v.cls) or "BaseException")
+        tn = getattr(v, "tname", None)
+        if tn is None and v.any_subclass:
+            tn = v.tname = VStr(I.path.fresh("exc_type_name", z3.StringSort()))
+        c.dyn_name = tn
+        return c
     for nm in ("bool", "int", "float", "str", "NoneType", "dict", "list", "tuple", "set"):
         if _isinst(I, v, nm) and not (nm == "int" and isinstance(v, VBool)):
             return VClass(nm)
@@ -1329,11 +1848,57 @@ def bi_type(I, args, kw):
         ci = I.class_of(v)
         if ci:
             return VClass(ci.name, ci.node, ci.module)
+    if isinstance(v, VExc):
+        # class of a caught exception; for an exception raised by a contract/trusted model (`any_subclass`) the
+        # concrete class is unknown: its __name__ is an arbitrary string
+        c = VClass(v.cls, exc_base=EXC_PARENT.get(v.cls) or "BaseException")
+        if v.any_subclass:
+            c.unknown_name = VStr(I.path.fresh("exc_class_name", z3.StringSort()))
+        return c
     raise Unsupported("type()")
 
 
 def bi_print(I, args, kw):
     return VNone()
+
+
+def bi_super(I, args, kw):
+    """zero-argument super() inside a method of a repository class: attribute lookup continues in the bases.
+    Only what the verified code needs is modelled: a method found in a repository base class, or the builtin
+    (Base)Exception.__init__ (stores `args`)."""
+    if args:
+        raise Unsupported("super(cls, obj)")
+    f = I.fn_stack[-1] if getattr(I, "fn_stack", None) else None
+    selfv = getattr(f, "selfv", None)
+    owner = I.ver.class_of_method(f.node) if f is not None else None
+    if owner is None or selfv is None:
+        raise Unsupported("super() outside a method")
+    attrs = {}
+    seen = False
+    stack = list(owner.bases)
+    names = set()
+    while stack:
+        b = stack.pop(0)
+        ci = owner.module.classes.get(b)
+        if ci is None:
+            v = I.ver.module_name(owner.module, b, I)
+            ci = v.module.classes.get(v.name) if isinstance(v, VClass) and v.node is not None else None
+        if ci is not None:
+            for mn, node in ci.methods.items():
+                if mn not in attrs:
+                    g = VFunc("ast", "%s.%s" % (ci.name, mn), node=node, module=ci.module, selfv=selfv)
+                    g.qual = "%s:%s.%s" % (ci.module.relpath, ci.name, mn)
+                    attrs[mn] = g
+            stack.extend(ci.bases)
+        elif b in EXC_PARENT:
+            seen = True
+    if seen and "__init__" not in attrs:
+        def exc_init(I2, a, k, selfv=selfv):
+            if isinstance(selfv, VObj):
+                selfv.fields["args"] = VTuple(list(a))
+            return VNone()
+        attrs["__init__"] = VFunc("builtin", "Exception.__init__", impl=exc_init)
+    return VExt("super", attrs)
 
 
 def bi_zip(I, args, kw):
@@ -1368,25 +1933,157 @@ def gh_lemma_pigeonhole(I, args, kw):
     return VNone()
 
 
+def gh_choose(I, args, kw):
+    """ghost only: choose('<type>', lambda x: P(x)) -> a value w of that type with  (exists x. P(x)) ==> P(w)
+    (Hilbert choice: a conservative definition, it constrains nothing but the fresh w)."""
+    t = I.ver.types.parse(const_of(args[0]))
+    pred = args[1]
+    w = I.fresh_value(t, "chosen")
+    x = t.wrap(z3.Const(I.path.fresh_name("ch_x"), t.sort()))
+    saved = I.spec
+    I.spec = True
+    try:
+        pw = I.truth(I.call(pred, [w], {}))
+        px = I.truth(I.call(pred, [x], {}))
+    finally:
+        I.spec = saved
+    I.path.assume(z3.ForAll([unwrap(x, t)], z3.Implies(px, pw)))
+    return w
+
+
+def gh_map_set_all(I, args, kw):
+    """ghost only: map_set_all(m, keys, v):  for k in keys: m[k] = v   (keys: a set)"""
+    m, ks, v = args
+    if not isinstance(m, VMap) or m.order is not None:
+        raise Unsupported("map_set_all on %s" % type(m).__name__)
+    dom2, card2, _ = _as_set_dom(I, ks, m.kt)
+    k = z3.Const(I.path.fresh_name("msa_k"), m.kt.sort())
+    ve = unwrap(v, m.vt)
+    nd = I.path.fresh("msa_dom", z3.ArraySort(m.kt.sort(), z3.BoolSort()))
+    nv = I.path.fresh("msa_val", z3.ArraySort(m.kt.sort(), m.vt.sort()))
+    I.path.assume(z3.ForAll([k], z3.Select(nd, k) == z3.Or(z3.Select(m.dom, k), z3.Select(dom2, k)),
+                            patterns=[z3.Select(nd, k)]))
+    I.path.assume(z3.ForAll([k], z3.Select(nv, k) == z3.If(z3.Select(dom2, k), ve, z3.Select(m.val, k)),
+                            patterns=[z3.Select(nv, k)]))
+    nc = I.path.fresh("msa_card", z3.IntSort())
+    I.path.assume(z3.And(nc >= m.card, nc >= card2, nc <= m.card + card2))
+    m.dom, m.val, m.card = nd, nv, nc
+    m.writeback()
+    return VNone()
+
+
+def sp_map_put(I, args, kw):
+    """map_put(m, k, v) (spec): the map m with m[k] = v  -- a new value, m is not changed"""
+    m, k, v = args
+    if not isinstance(m, VMap) or m.order is not None:
+        raise Unsupported("map_put on %s" % type(m).__name__)
+    kk = unwrap(k, m.kt)
+    was = z3.Select(m.dom, kk)
+    return VMap(z3.Store(m.dom, kk, z3.BoolVal(True)), z3.Store(m.val, kk, unwrap(v, m.vt)),
+                m.card + z3.If(was, 0, 1), m.kt, m.vt)
+
+
+def sp_map_del(I, args, kw):
+    """map_del(m, k) (spec): the map m without key k (m itself when k is absent)"""
+    m, k = args
+    if not isinstance(m, VMap) or m.order is not None:
+        raise Unsupported("map_del on %s" % type(m).__name__)
+    kk = unwrap(k, m.kt)
+    was = z3.Select(m.dom, kk)
+    return VMap(z3.Store(m.dom, kk, z3.BoolVal(False)), m.val, m.card - z3.If(was, 1, 0), m.kt, m.vt)
+
+
+def sp_perm_of(I, args, kw):
+    """perm_of(a, b) (spec): list a is a permutation of list b, i.e. there is a bijection sg on 0..len-1 with
+    a[i] == b[sg(i)].  Proving it needs a witness: the index functions attached by sorted()/list.sort() to their
+    result (python-side attribute `perm`); without a witness the clause is an unconstrained boolean (unprovable).
+    When assumed, fresh index functions are introduced."""
+    a, b = args
+    if isinstance(a, VEmptyList) or isinstance(b, VEmptyList):
+        o = b if isinstance(a, VEmptyList) else a
+        return VBool(z3.BoolVal(True) if isinstance(o, VEmptyList) else o.n == 0)
+    if not (isinstance(a, VSeq) and isinstance(b, VSeq) and a.et == b.et):
+        raise Unsupported("perm_of arguments")
+    p = I.path
+    w = getattr(a, "perm", None)
+    if w is not None:
+        sg, sgi = w[0], w[1]
+    elif I.assume_mode:
+        sg = z3.Function(p.fresh_name("perm"), z3.IntSort(), z3.IntSort())
+        sgi = z3.Function(p.fresh_name("permi"), z3.IntSort(), z3.IntSort())
+    else:
+        return VBool(I.undef_bool())
+    i, j = z3.Ints("pm_i pm_j")
+    n = a.n
+    ea = lambda x: z3.Select(a.arr, x)      # element equality = equality of the encoded values
+    eb = lambda x: z3.Select(b.arr, x)
+    return VBool(z3.And(
+        a.n == b.n,
+        z3.ForAll([i], z3.Implies(z3.And(0 <= i, i < n), z3.And(0 <= sg(i), sg(i) < n, sgi(sg(i)) == i, ea(i) == eb(sg(i)))),
+                  patterns=[sg(i)]),
+        z3.ForAll([j], z3.Implies(z3.And(0 <= j, j < n), z3.And(0 <= sgi(j), sgi(j) < n, sg(sgi(j)) == j, ea(sgi(j)) == eb(j))),
+                  patterns=[sgi(j)])))
+
+
+def sp_enc_eq(I, args, kw):
+    """enc_eq(a, b) (spec): equality of the *encoded* values (one z3 equality; for records/containers this is
+    stronger than the extensional `==` / seq_eq and free of nested quantifiers)"""
+    a, b = args
+    if isinstance(a, VUndef) or isinstance(b, VUndef):
+        return VBool(I.undef_bool())
+    t = typeof(a)
+    return VBool(unwrap(a, t) == unwrap(b, t))
+
+
+def sp_opos(I, args, kw):
+    """opos(d, k) (spec only): position of key k in the insertion order of the ordered map d, i.e. the index i
+    with list(d.keys())[i] == k.  Defined for k in d (the map's type invariant `assume_wf_order` gives
+    0 <= opos < len(d) and keys[opos] == k then); an unconstrained integer otherwise."""
+    m, k = args
+    if not isinstance(m, VMap) or m.order is None or getattr(m, "pos", None) is None:
+        raise Unsupported("opos of a value that is not an insertion-ordered map")
+    return VInt(m.pos(unwrap(k, m.kt)))
+
+
 BUILTIN_FUNCS = {
+    "opos": sp_opos,
+    "choose": gh_choose, "map_set_all": gh_map_set_all,
+    "map_put": sp_map_put, "map_del": sp_map_del, "perm_of": sp_perm_of, "enc_eq": sp_enc_eq,
+    "is_str": (lambda I, args, kw: VBool(isinstance(I.force(args[0]) if not I.spec else args[0], VStr))),
     "lemma_pigeonhole": gh_lemma_pigeonhole, "int_parses": sp_int_parses, "int_value": sp_int_value,
+    "nan": sp_nan, "is_nan": sp_is_nan,
     "len": bi_len, "int": bi_int, "float": bi_float, "bool": bi_bool, "str": bi_str, "abs": bi_abs,
     "min": bi_min, "max": bi_max, "isinstance": bi_isinstance, "hasattr": bi_hasattr, "getattr": bi_getattr,
     "setattr": bi_setattr, "callable": bi_callable, "list": bi_list, "tuple": bi_tuple, "dict": bi_dict,
     "set": bi_set, "sorted": bi_sorted, "enumerate": bi_enumerate, "range": bi_range, "iter": bi_iter,
     "round": bi_round, "sum": bi_sum, "any": bi_any_all(True), "all": bi_any_all(False), "id": bi_id,
-    "hash": bi_hash, "object": bi_object, "type": bi_type, "print": bi_print, "zip": bi_zip,
-    "deque": bi_deque, "OrderedDict": None,
+    "hash": bi_hash, "object": bi_object, "type": bi_type, "print": bi_print, "zip": bi_zip, "super": bi_super,
+    "deque": bi_deque, "OrderedDict": None, "open": bi_open, "fs_key": sp_fs_key,
+    "fs_name_of": lambda I, a, k: __import__("pyvc.fsmodel", fromlist=["x"]).sp_fs_name_of(I, a, k),
+    "fs_temp_name": lambda I, a, k: __import__("pyvc.fsmodel", fromlist=["x"]).sp_fs_temp_name(I, a, k),
 }
+BUILTIN_FUNCS.update(jsontree.SPEC_FUNCS)
+from . import ext_listing as _ext_listing
+BUILTIN_FUNCS.update(_ext_listing.SPEC_FUNCS)
 BUILTIN_TYPES = {"int": bi_int, "float": bi_float, "bool": bi_bool, "str": bi_str, "list": bi_list,
-                 "tuple": bi_tuple, "dict": bi_dict, "set": bi_set, "object": bi_object, "deque": bi_deque}
+                 "tuple": bi_tuple, "dict": bi_dict, "set": bi_set, "object": bi_object, "deque": bi_deque,
+                 "OrderedDict": bi_ordereddict}
 TYPE_NAMES = {"int", "float", "bool", "str", "list", "tuple", "dict", "set", "object", "NoneType", "bytes",
               "Mapping", "MutableMapping", "Sequence", "deque", "OrderedDict", "frozenset"}
 
 
-def builtin_name(name):
+def builtin_name(name, I=None):
     if name in TYPE_NAMES:
         return VClass(name)
+    if name == "open" and I is not None:
+        from . import externals as X0
+        if X0._uses_fsmodel(I.ver):
+            return VFunc("builtin", name, impl=BUILTIN_FUNCS[name])
+    if name in JM.SPEC_FUNCS:
+        return VFunc("builtin", name, impl=JM.SPEC_FUNCS[name])
+    from . import externals as X
+    if name in X.SPEC_FUNCS:
+        return VFunc("builtin", name, impl=X.SPEC_FUNCS[name])
     if name in BUILTIN_FUNCS and BUILTIN_FUNCS[name] is not None:
         return VFunc("builtin", name, impl=BUILTIN_FUNCS[name])
     if name in EXC_PARENT:
@@ -1423,22 +2120,69 @@ def call_bmethod(I, o, name, args, kw):
             return VEmptyList()
     if isinstance(o, VMap):
         return map_method(I, o, name, args, kw)
+    if isinstance(o, VDRec):
+        return drec_method(I, o, name, args, kw)
+    if isinstance(o, VJDict):
+        return jsontree.method(I, o, name, args, kw)
+    if isinstance(o, VJList):
+        return jsontree.list_method(I, o, name, args, kw)
+    if isinstance(o, VWStr):
+        return jsontree.w_method(I, o, name, args, kw)
     if isinstance(o, VDictRec):
         return dictrec_method(I, o, name, args, kw)
+    if isinstance(o, VRec) and getattr(o.t, "dictshape", False) and name == "get":
+        c = const_of(args[0]) if isinstance(args[0], VStr) else _NOCONST
+        if not isinstance(c, str):
+            raise Unsupported("symbolic key lookup in a dict-shaped record")
+        default = args[1] if len(args) > 1 else kw.get("default", VNone())
+        if c not in o.fields:
+            return default
+        if c not in o.t.optkeys:
+            return o.fields[c]
+        f = o.fields[c]
+        if isinstance(default, VNone):
+            return f
+        if isinstance(default, VEmptyList) and isinstance(f.t.inner, TList):
+            default = VSeq(z3.K(z3.IntSort(), I.default_of(f.t.inner.elem)), z3.IntVal(0), f.t.inner.elem, "list")
+        try:
+            return I.ite(z3.Not(f.is_none()), f.val(), default)
+        except (Unsupported, TypeError):
+            if I.spec:
+                raise Unsupported("dict.get with incompatible default in spec")
+            if I.path.branch(z3.Not(f.is_none())):
+                return f.val()
+            return default
     if isinstance(o, (VSet, VEmptySet)):
         return set_method(I, o, name, args, kw)
     if isinstance(o, VStr):
         return str_method(I, o, name, args, kw)
     if isinstance(o, VFile):
         return I.ver.fs_method(I, o, name, args, kw)
+    if isinstance(o, VPath):
+        from . import fsmodel
+        return fsmodel.path_method(I, o, name, args, kw)
     raise Unsupported("method %s of %s" % (name, type(o).__name__))
+
+
+def resolve_optionals(I, v, t):
+    """an Optional value stored where a non-Optional is expected (its None-ness was tested before, e.g. by isinstance):
+    resolve it on this path (fork; the None side is normally infeasible) -- also inside tuples"""
+    if I.spec:
+        return v
+    if isinstance(v, VOpt) and not isinstance(t, TOpt):
+        return I.force(v)
+    if isinstance(v, VTuple) and isinstance(t, TTuple) and len(v.items) == len(t.elems) and \
+            any(isinstance(x, VOpt) and not isinstance(et, TOpt) for x, et in zip(v.items, t.elems)):
+        return VTuple([resolve_optionals(I, x, et) for x, et in zip(v.items, t.elems)])
+    return v
 
 
 def seq_method(I, o, name, args, kw):
     p = I.path
     i = z3.Int("sm_i")
     if name == "append":
-        o.arr = z3.Store(o.arr, o.n, unwrap(args[0], o.et))
+        check_literal_shape(I, args[0], o.et)
+        o.arr = z3.Store(o.arr, o.n, unwrap(resolve_optionals(I, args[0], o.et), o.et))
         o.n = z3.simplify(o.n + 1)
         o.writeback()
         return VNone()
@@ -1493,12 +2237,21 @@ def seq_method(I, o, name, args, kw):
         if isinstance(other, VEmptyList):
             return VNone()
         old, n0 = o.arr, o.n
+        if getattr(I.cur_contract, "named_seqs", False) and not I.spec:
+            r = named_concat(I, VSeq(old, n0, o.et), other)
+            o.arr, o.n = r.arr, r.n
+            o.writeback()
+            return VNone()
         o.arr = z3.Lambda([i], z3.If(i < n0, z3.Select(old, i), z3.Select(other.arr, i - n0)))
         o.n = z3.simplify(n0 + other.n)
         o.writeback()
         return VNone()
     if name == "sort":
-        r = sort_seq(I, VSeq(o.arr, o.n, o.et, "list"), kw.get("key"))
+        rev = kw.get("reverse")
+        rev = False if rev is None else const_of(rev)
+        if not isinstance(rev, bool):
+            raise Unsupported("list.sort(reverse=<symbolic>)")
+        r = sort_seq(I, VSeq(o.arr, o.n, o.et, "list"), kw.get("key"), reverse=rev)
         o.arr, o.n = r.arr, r.n
         o.writeback()
         return VNone()
@@ -1538,6 +2291,8 @@ def map_get(I, m, k, default):
         return default
     # try a value level ite first; fork when the default has a different shape
     try:
+        if isinstance(m.vt, TMutRec) and not I.spec:
+            raise TypeError("record alias: fork")
         if isinstance(default, VNone):
             t = m.vt if isinstance(m.vt, TOpt) else TOpt(m.vt)
             r = t.wrap(z3.If(present, unwrap(val, t), t.none()))
@@ -1607,6 +2362,15 @@ def map_method(I, m, name, args, kw):
             for k2, v2 in other.fields.items():
                 map_store(I, m, unwrap(VStr(k2), m.kt), v2)
             return VNone()
+        if isinstance(other, VMap) and other.kt == m.kt and other.vt == m.vt and const_of(VInt(m.card)) == 0 \
+                and (m.order is None or other.order is not None) and not I.ver._aggs_for(m):
+            # update of an *empty* dict (e.g. right after .clear()): the result is a copy of the argument
+            m.dom, m.val, m.card = other.dom, other.val, other.card
+            if m.order is not None:
+                m.order.arr, m.order.n = other.order.arr, other.order.n
+                m.pos = getattr(other, "pos", None)
+            m.writeback()
+            return VNone()
         raise Unsupported("dict.update with symbolic map")
     if name == "move_to_end":
         if m.order is None:
@@ -1641,6 +2405,44 @@ def map_method(I, m, name, args, kw):
     raise Unsupported("dict.%s" % name)
 
 
+def drec_method(I, d, name, args, kw):
+    """methods of a dict-shaped record (read-only dict protocol)"""
+    if name == "get":
+        k = args[0] if I.spec else I.force(args[0])
+        c = const_of(k) if isinstance(k, VStr) else _NOCONST
+        default = args[1] if len(args) > 1 else kw.get("default", VNone())
+        if not isinstance(c, str):
+            if not isinstance(k, VStr):
+                return default
+            raise Unsupported("symbolic key lookup in a dict-shaped record")
+        if c not in d.t.fields:
+            return default
+        val = d.field(c)
+        if c in d.t.required:
+            return val
+        ft = d.t.fields[c]
+        if isinstance(default, VDictRec) and not default.fields and isinstance(ft, TMap):
+            default = I.empty_map(ft)
+        if isinstance(default, VEmptyList) and isinstance(ft, TList):
+            default = VSeq(z3.K(z3.IntSort(), I.default_of(ft.elem)), z3.IntVal(0), ft.elem, ft.kind)
+        present = d.has(c)
+        try:
+            if isinstance(default, VNone):
+                t = ft if isinstance(ft, TOpt) else TOpt(ft)
+                return t.wrap(z3.If(present, unwrap(val, t), t.none()))
+            return I.ite(present, val, default)
+        except (Unsupported, TypeError):
+            pass
+        if I.spec:
+            raise Unsupported("dict-shaped record .get with an incompatible default in a specification")
+        if I.path.branch(present):
+            return val
+        return default
+    if name == "copy":
+        return d
+    raise Unsupported("dict-shaped record .%s" % name)
+
+
 def dictrec_method(I, d, name, args, kw):
     if name == "get":
         k = I.force(args[0])
@@ -1648,11 +2450,20 @@ def dictrec_method(I, d, name, args, kw):
         default = args[1] if len(args) > 1 else VNone()
         if isinstance(c, str):
             return d.fields.get(c, default)
-        if not isinstance(k, VStr):
-            return default
         if not d.fields:
             return default
-        raise Unsupported("symbolic key lookup in literal dict")
+        if isinstance(k, VWStr):
+            raise Unsupported("abstract key lookup in a literal dict")
+        if not isinstance(k, VStr):
+            return default
+        # symbolic key into a literal table of scalars: if-then-else chain over the (distinct) literal keys
+        try:
+            cur = default
+            for k2 in reversed(list(d.fields)):
+                cur = I.ite(k.e == z3.StringVal(k2), d.fields[k2], cur)
+            return cur
+        except (Unsupported, TypeError):
+            raise Unsupported("symbolic key lookup in literal dict")
     if name in ("keys", "values", "items"):
         return VMapView(d, name)
     if name == "copy":
@@ -1664,13 +2475,13 @@ def dictrec_method(I, d, name, args, kw):
             return VNone()
         raise Unsupported("literal dict update with symbolic map")
     if name == "pop":
-        c = const_of(args[0])
-        if isinstance(c, str):
-            if c in d.fields:
+        c = const_of(args[0]) if not jsontree.is_j(args[0]) else _NOCONST
+        if isinstance(c, str) or not d.fields:
+            if isinstance(c, str) and c in d.fields:
                 return d.fields.pop(c)
             if len(args) > 1:
                 return args[1]
-            I.raise_exc("KeyError", c)
+            I.raise_exc("KeyError", str(c))
     if name == "setdefault":
         c = const_of(args[0])
         if isinstance(c, str):
@@ -1683,9 +2494,42 @@ def dictrec_method(I, d, name, args, kw):
     raise Unsupported("literal dict .%s" % name)
 
 
+def _as_set_dom(I, other, kt):
+    """membership predicate (z3 array kt -> Bool) and cardinality bound of an iterable used as a set operand"""
+    other = I.force(other)
+    if isinstance(other, (VEmptySet, VEmptyList)):
+        return z3.K(kt.sort(), z3.BoolVal(False)), z3.IntVal(0), True
+    if isinstance(other, VSet) and other.kt == kt:
+        return other.dom, other.card, True
+    if isinstance(other, VSeq) and other.et == kt:
+        st = bi_set(I, [other], {})
+        return st.dom, st.card, False
+    raise Unsupported("set operation with %s operand" % type(other).__name__)
+
+
 def set_method(I, s, name, args, kw):
+    if name == "isdisjoint":
+        if isinstance(s, VEmptySet):
+            return VBool(True)
+        dom2, _, _ = _as_set_dom(I, args[0], s.kt)
+        k = z3.Const(I.path.fresh_name("dj_k"), s.kt.sort())
+        return VBool(z3.Not(z3.Exists([k], z3.And(z3.Select(s.dom, k), z3.Select(dom2, k)))))
     if isinstance(s, VEmptySet):
         raise Unsupported("mutation of set() of unknown element type; declare the local's type")
+    if name == "update":
+        # s |= other: union; the cardinality is only bounded (exact when the operands are disjoint)
+        dom2, card2, _ = _as_set_dom(I, args[0], s.kt)
+        k = z3.Const(I.path.fresh_name("un_k"), s.kt.sort())
+        old_dom, old_card = s.dom, s.card
+        nd = I.path.fresh("union_dom", z3.ArraySort(s.kt.sort(), z3.BoolSort()))
+        I.path.assume(z3.ForAll([k], z3.Select(nd, k) == z3.Or(z3.Select(old_dom, k), z3.Select(dom2, k)),
+                                patterns=[z3.Select(nd, k)]))
+        s.dom = nd
+        s.card = I.path.fresh("union_card", z3.IntSort())
+        I.path.assume(z3.And(s.card >= old_card, s.card >= card2, s.card <= old_card + card2))
+        I.path.assume((s.card == 0) == z3.And(old_card == 0, card2 == 0))
+        s.writeback()
+        return VNone()
     if name == "add":
         set_add(I, s, unwrap(I.force(args[0]), s.kt))
         return VNone()
@@ -1719,13 +2563,67 @@ def str_method(I, s, name, args, kw):
     if name in ("lower", "upper", "strip", "lstrip", "rstrip"):
         return VStr(I.ver.str_fn(name)(s.e))
     if name == "encode":
-        return s
+        # bytes are modelled as str: a UTF-8 byte string is represented by the text it encodes (identity); any other
+        # codec is an opaque deterministic function of (text, codec).  Encoding may fail (lone surrogates /
+        # unencodable characters: UnicodeEncodeError; unknown codec name: LookupError) -- exec mode forks.
+        enc = args[0] if args else kw.get("encoding")
+        cenc = "utf-8" if enc is None else (const_of(enc) if isinstance(enc, VStr) else _NOCONST)
+        known = isinstance(cenc, str) and cenc.lower().replace("_", "-") in ("utf-8", "utf8")
+        if not known and not isinstance(enc, VStr):
+            raise Unsupported("str.encode with a non-string codec")
+        utf8 = z3.BoolVal(True) if known else z3.Or(enc.e == z3.StringVal("utf-8"), enc.e == z3.StringVal("utf8"))
+        errs = args[1] if len(args) > 1 else kw.get("errors")
+        lenient = errs is not None and const_of(errs) in ("backslashreplace", "replace", "ignore", "surrogatepass",
+                                                          "xmlcharrefreplace", "namereplace")
+        if lenient:
+            I.ver.note_assumption("str.encode(..., errors=<lenient handler>) never raises UnicodeEncodeError; the bytes are "
+                                  "modelled as the text itself (exact except for unencodable characters)")
+        if not I.spec:
+            if not lenient and I.path.choice():
+                I.raise_exc("UnicodeEncodeError", "codec can't encode character")
+            if not known:
+                if I.path.choice():
+                    I.path.assume(z3.Not(utf8))     # "utf-8" / "utf8" are known codecs
+                    I.raise_exc("LookupError", "unknown encoding")
+        if known:
+            return s
+        if isinstance(enc, VStr):
+            other = I.ver.opaque_str("encode", VTuple([s, enc]), I)
+            return VStr(z3.If(utf8, s.e, other.e))
+        raise Unsupported("str.encode with a non-string codec")
     if name == "replace":
         return VStr(z3.Replace(s.e, args[0].e, args[1].e)) if False else I.ver.opaque_str("replace", VTuple([s] + list(args)), I)
     if name == "find":
         return VInt(z3.IndexOf(s.e, args[0].e, 0))
+    if name == "count" and len(args) == 1 and isinstance(args[0], VStr):
+        # number of non-overlapping occurrences: an uninterpreted function, only 0 <= count <= len(s) is assumed
+        f = z3.Function("str_count", z3.StringSort(), z3.StringSort(), z3.IntSort())
+        r = f(s.e, args[0].e)
+        I.path.assume(z3.And(r >= 0, r <= z3.Length(s.e)))
+        I.ver.note_assumption("str.count is uninterpreted (0 <= count <= len)")
+        return VInt(r)
+    if name == "isascii":
+        if isinstance(const_of(s), str):
+            return VBool(const_of(s).isascii())
+        fa = z3.Function("str_isascii", z3.StringSort(), z3.BoolSort())
+        fd = isdigit_term(I, s.e).decl()
+        if not getattr(I.path, "_isascii_axiom", False):
+            I.path._isascii_axiom = True
+            x = z3.String("ias_x")
+            ipf = int_parse_terms(I, z3.StringVal("0"))[0].decl()
+            # trusted: an ASCII string that isdigit() accepts is in [0-9]+, which int() parses
+            I.path.assume(z3.ForAll([x], z3.Implies(z3.And(fa(x), fd(x)), z3.And(ipf(x), z3.InRe(x, z3.Plus(z3.Range("0", "9"))))),
+                                    patterns=[z3.MultiPattern(fa(x), fd(x))]))
+            I.ver.note_assumption("str.isascii(): uninterpreted except: isascii(s) and isdigit(s) => s in [0-9]+ (so int(s) parses)")
+        return VBool(fa(s.e))
+    if name == "isdigit":
+        if isinstance(const_of(s), str):
+            return VBool(const_of(s).isdigit())     # concrete string: host python decides
+        return VBool(isdigit_term(I, s.e))
     if name == "join":
         xs = I.force(args[0])
+        if isinstance(xs, (VTuple, VJList)) and any(isinstance(x, VWStr) for x in xs.items):
+            return jsontree.w_join(I, s, xs.items)
         if isinstance(xs, VTuple):
             if not xs.items:
                 return VStr("")
@@ -1790,7 +2688,7 @@ def comprehension(I, n, env):
         base = inner
         mk_item = lambda idx: VTuple([VInt(idx + to_int(src.start)), base.get(idx)])
     elif isinstance(src, VRange):
-        if src.step != 1:
+        if isinstance(src.step, V) or src.step != 1:
             raise Unsupported("comprehension over stepped range")
         lo, hi = to_int(src.lo), to_int(src.hi)
         cnt = z3.If(hi > lo, hi - lo, 0)
@@ -1827,6 +2725,14 @@ def comprehension(I, n, env):
         et = lt
     elt_e = unwrap(elt, et)
     if not conds:
+        if getattr(I.cur_contract, "named_seqs", False) and not saved:
+            res = I.fresh_value(TList(et), "map")
+            p.assume(res.n == base.n)
+            pats = [z3.Select(res.arr, i)]
+            if base.arr is not None and not z3.is_quantifier(base.arr):
+                pats.append(z3.Select(base.arr, i))
+            p.assume(z3.ForAll([i], z3.Implies(z3.And(0 <= i, i < base.n), z3.Select(res.arr, i) == elt_e), patterns=pats))
+            return res
         return VSeq(z3.Lambda([i], elt_e), base.n, et, "list")
     cond = z3.And(conds)
     # filter: res[j] = elt(sel(j)), sel strictly increasing, hits exactly the indices satisfying cond
@@ -1844,14 +2750,21 @@ def comprehension(I, n, env):
     p.assume(z3.ForAll([j, j2], z3.Implies(z3.And(0 <= j, j < j2, j2 < res.n), sel(j) < sel(j2)),
                        patterns=[z3.MultiPattern(sel(j), sel(j2))]))
     hit_pats = [rank(i)]
-    if base.arr is not None:
-        if not _has_ite(base.arr):
-            hit_pats.append(z3.Select(base.arr, i))
-        else:
-            # the source array is an if-then-else term (not allowed inside a trigger): name it
-            named = p.fresh("cp_src", base.arr.sort())
-            p.assume(named == base.arr)
-            hit_pats.append(z3.Select(named, i))
+    if base.arr is not None and z3.is_const(base.arr) and base.arr.decl().kind() == z3.Z3_OP_UNINTERPRETED:
+        # (a Store/Lambda/ite-valued array is not a legal trigger: "'if' cannot be used in patterns")
+        hit_pats.append(z3.Select(base.arr, i))
+    elif base.arr is not None:
+        # source is itself a mapped list (lambda array): trigger on the reads of the underlying plain arrays
+        seen, stack = set(), [z3.simplify(z3.Select(base.arr, i))]
+        while stack:
+            x = stack.pop()
+            if x.get_id() in seen or not z3.is_app(x):
+                continue
+            seen.add(x.get_id())
+            if z3.is_select(x) and x.arg(1).eq(i) and z3.is_const(x.arg(0)) and \
+                    x.arg(0).decl().kind() == z3.Z3_OP_UNINTERPRETED:
+                hit_pats.append(x)
+            stack.extend(x.children())
     p.assume(z3.ForAll([i], z3.Implies(z3.And(0 <= i, i < base.n, cond),
                                       z3.And(0 <= rank(i), rank(i) < res.n, sel(rank(i)) == i,
                                              z3.Select(res.arr, rank(i)) == elt_e)),
@@ -1917,6 +2830,24 @@ def dict_comprehension(I, n, env):
     src = _comp_source(I, gen, env)
     if isinstance(src, VEmptyList):
         return VDictRec({})
+    srcmap = src.m if isinstance(src, VMapView) and src.kind == "keys" else src
+    if isinstance(srcmap, VMap) and isinstance(gen.target, ast.Name) and isinstance(n.key, ast.Name) \
+            and n.key.id == gen.target.id and not gen.ifs:
+        # {k: f(k) for k in m} / m.keys(): exactly the map with m's domain and value f(k) at k
+        kc = z3.Const("dck_" + gen.target.id, srcmap.kt.sort())
+        saved = I.spec
+        I.spec = True
+        try:
+            e2 = Env(env, env.module)
+            e2.set(gen.target.id, srcmap.kt.wrap(kc))
+            vv = I.ev(n.value, e2)
+        finally:
+            I.spec = saved
+        vt = typeof(vv)
+        ve = unwrap(vv, vt)
+        uses_k = any(x.eq(kc) for x in _subterms(ve))
+        val = z3.Lambda([kc], ve) if uses_k else z3.K(srcmap.kt.sort(), ve)
+        return VMap(srcmap.dom, val, srcmap.card, srcmap.kt, vt)
     base = to_seq(I, src)
     if isinstance(base, VEmptyList):
         return VDictRec({})
@@ -1952,8 +2883,23 @@ def dict_comprehension(I, n, env):
     return m
 
 
+def _subterms(e):
+    seen = set()
+    st = [e]
+    while st:
+        x = st.pop()
+        if x.get_id() in seen:
+            continue
+        seen.add(x.get_id())
+        yield x
+        if z3.is_app(x):
+            st.extend(x.children())
+        elif z3.is_quantifier(x):
+            st.append(x.body())
+
+
 def set_comprehension(I, n, env):
-    """{elt for x in xs if c}: the set of the elements of the corresponding list comprehension"""
+    """{elt for x in xs if c} == set([elt for x in xs if c])"""
     lst = comprehension(I, n, env)
     if isinstance(lst, VEmptyList):
         return VEmptySet()
@@ -1977,24 +2923,45 @@ Interp.assign_spec = assign_spec
 
 def exec_with(I, s, env):
     entered = []
-    try:
-        for it in s.items:
-            cm = I.force(I.ev(it.context_expr, env))
-            I.with_stack.append(cm)
-            entered.append(cm)
-            val = cm
-            if isinstance(cm, VObj):
-                ci = I.class_of(cm)
-                if ci is not None and ci.find_method("__enter__"):
-                    val = I.call_method_ast(cm, "__enter__", [], {})
-            if it.optional_vars is not None:
-                I.assign(it.optional_vars, val, env)
-        I.exec_block(s.body, env)
-    finally:
-        for cm in reversed(entered):
-            I.with_stack.pop()
+
+    def leave(exc):
+        # __exit__ of file objects = close() (may itself raise: the new exception then replaces the one in flight);
+        # only run for python-level exits (normal / exception / return / break / continue), never for engine signals
+        err = None
+        while entered:
+            cm = entered.pop()
             if isinstance(cm, VFile):
-                I.ver.fs_method(I, cm, "close", [], {})
+                try:
+                    I.ver.fs_method(I, cm, "__exit__", [], {})
+                except PyRaise as pr:
+                    err = pr
+        if err is not None:
+            raise err
+
+    depth = len(I.with_stack)
+    try:
+        try:
+            for it in s.items:
+                cm = I.force(I.ev(it.context_expr, env))
+                I.with_stack.append(cm)
+                entered.append(cm)
+                val = cm
+                if isinstance(cm, VObj):
+                    ci = I.class_of(cm)
+                    if ci is not None and ci.find_method("__enter__"):
+                        val = I.call_method_ast(cm, "__enter__", [], {})
+                if it.optional_vars is not None:
+                    I.assign(it.optional_vars, val, env)
+            I.exec_block(s.body, env)
+        except (PyRaise, ReturnSig, BreakSig, ContinueSig) as sig:
+            del I.with_stack[depth:]
+            leave(sig)
+            raise
+        else:
+            del I.with_stack[depth:]
+            leave(None)
+    finally:
+        del I.with_stack[depth:]
 
 
 def _iter_protocol(I, it):
@@ -2007,6 +2974,12 @@ def _iter_protocol(I, it):
         return ("concrete", [VStr(k) for k in it.fields])
     if isinstance(it, VMapView) and isinstance(it.m, VDictRec):
         return ("concrete", to_seq_items(I, it))
+    if isinstance(it, VMapView) and isinstance(it.m, VJDict):
+        return ("concrete", jsontree.view_items(I, it))     # insertion order, as python dicts
+    if isinstance(it, VJDict):
+        return ("concrete", [k for k, _ in it.slots])
+    if isinstance(it, VJList):
+        return ("concrete", list(it.items))
     if isinstance(it, VSeq):
         snap = VSeq(it.arr, it.n, it.et, it.kind)
         return ("seq", snap.n, lambda i: snap.get(i))
@@ -2018,6 +2991,34 @@ def _iter_protocol(I, it):
         if kind[0] == "seq":
             return ("seq", kind[1], lambda i: VTuple([VInt(st + i), kind[2](i)]))
         raise Unsupported("enumerate over map")
+    if isinstance(it, VRange) and isinstance(it.step, V):
+        # range(lo, hi, s) with a symbolic step s > 0: element i is lo + i*s.  To stay linear, i*s is the
+        # uninterpreted range_mul(i, s) constrained by true facts of multiplication by a positive number only:
+        # range_mul(0,s) = 0, monotone in i, the successor equation at the indices the loop touches, and the
+        # defining inequalities of the length n:  lo + (n-1)*s < hi <= lo + n*s  (n = 0 iff hi <= lo).
+        p = I.path
+        lo, hi = to_int(it.lo), to_int(it.hi)
+        s = p.fresh("range_step", z3.IntSort())     # a constant, so that range_mul(i, s) can be used in triggers
+        p.assume(s == to_int(it.step))
+        mul = z3.Function("range_mul", z3.IntSort(), z3.IntSort(), z3.IntSort())
+        n = p.fresh("range_n", z3.IntSort())
+        a, b = z3.Ints("rm_a rm_b")
+        p.assume(z3.And(mul(0, s) == 0, mul(1, s) == s))
+        p.assume(z3.ForAll([a, b], z3.Implies(z3.And(0 <= a, a <= b), mul(a, s) <= mul(b, s)),
+                           patterns=[z3.MultiPattern(mul(a, s), mul(b, s))]))
+        p.assume(n >= 0)
+        p.assume((n == 0) == (hi <= lo))
+        p.assume(z3.Implies(n > 0, z3.And(mul(n, s) == mul(n - 1, s) + s, lo + mul(n - 1, s) < hi, hi <= lo + mul(n, s))))
+        I.ver.note_assumption("range(lo, hi, s) with symbolic s>0: i*s is the uninterpreted range_mul(i,s) with "
+                              "range_mul(0,s)=0, monotonicity, successor equations at touched indices, and the "
+                              "defining inequalities of the range length")
+
+        def item(i):
+            p.assume(z3.Implies(i >= 0, mul(i + 1, s) == mul(i, s) + s))
+            return VInt(lo + mul(i, s))
+        j = z3.Int("rg_j")
+        item.seqv = VSeq(z3.Lambda([j], lo + mul(j, s)), n, TInt, "list")
+        return ("seq", n, item)
     if isinstance(it, VRange):
         lo, hi = to_int(it.lo), to_int(it.hi)
         clo, chi = const_of(VInt(lo)), const_of(VInt(hi))
@@ -2076,7 +3077,7 @@ def exec_for(I, s, env):
         n, item = proto[1], proto[2]
         if spec is None:
             return _unroll_for(I, s, env, n, item)
-        seqv = VSeq(it.arr, it.n, it.et, "list") if isinstance(it, VSeq) else None
+        seqv = VSeq(it.arr, it.n, it.et, "list") if isinstance(it, VSeq) else getattr(item, "seqv", None)
         return _for_seq_inv(I, s, env, spec, n, item, seqv)
     # iteration over an unordered finite set / map domain
     m = proto[1]
@@ -2129,6 +3130,8 @@ def _for_seq_inv(I, s, env, spec, n, item, seqv=None):
             except BreakSig:
                 return
             env.set(iname, VInt(i + 1))
+            if seqv is not None:
+                env.set(spec.get("iter", "_iter"), seqv)     # an inner for-loop rebinds the shared ghost name
             I.check_invariants(spec, env, name + "/inv-preserved")
             raise PathEnd("loop body end")
         I.exec_block(s.orelse, env)
@@ -2162,9 +3165,9 @@ def _for_map_inv(I, s, env, spec, m, kind):
             if kind == "keys":
                 x = kt.wrap(kk)
             elif kind == "values":
-                x = m.vt.wrap(z3.Select(val0, kk))
+                x = m.get(kk)       # the value as it is now (origin kept: mutations are written back)
             else:
-                x = VTuple([kt.wrap(kk), m.vt.wrap(z3.Select(val0, kk))])
+                x = VTuple([kt.wrap(kk), m.get(kk)])
             I.assign(s.target, x, env)
             try:
                 I.exec_block(s.body, env)
